@@ -79,6 +79,10 @@ class Reporter:
             self.known_seen[k["what"]] = self.known_seen.get(k["what"], 0) + 1
             return False
         key = json.dumps(witness, sort_keys=True, default=str)
+        if key not in self.new and os.environ.get("VERIF_WITNESS_LOG"):
+            # development aid for bulk triage: every distinct new witness, also beyond the 200 replay directories
+            with open(os.environ["VERIF_WITNESS_LOG"], "a") as f:
+                f.write(key + "\n")
         if key not in self.new:
             if len(self.new) < 200:
                 self.new[key] = write_replay(self.pid, witness, files or {}, argv, note)
